@@ -411,3 +411,152 @@ Proof.
   intros Hin Hn. destruct (find_matched_keys ms t m Hin Hn) as (a' & F & Ha & Hid).
   exists a'. repeat split; auto. cbn [node_text]. rewrite F. reflexivity.
 Qed.
+
+(* ---- expression patterns: text outside the outermost replaced nodes is untouched ---- *)
+From Coq Require Import Permutation.
+
+Definition ch_start (c : change) : N := fst (fst c).
+Definition ch_end (c : change) : N := snd (fst c).
+Definition ch_disj (a b : change) : Prop := (ch_end a <= ch_start b \/ ch_end b <= ch_start a)%N.
+Definition ch_ok (len : N) (c : change) : Prop := (ch_start c <= ch_end c /\ ch_end c <= len)%N.
+
+Lemma ch_le_total a b : ch_le a b = false -> ch_leb b a.
+Proof.
+  unfold ch_leb, ch_le. destruct a as [[s1 e1] n1], b as [[s2 e2] n2].
+  intro H. apply orb_false_iff in H as [H1 H2]. apply N.ltb_ge in H1.
+  destruct (N.ltb_spec s2 s1); [reflexivity|]. cbn [orb]. assert (s1 = s2) by lia. subst.
+  rewrite N.eqb_refl in *. cbn [andb] in *. apply N.leb_gt in H2. apply N.leb_le. lia.
+Qed.
+
+Lemma ch_le_trans a b c : ch_leb a b -> ch_leb b c -> ch_leb a c.
+Proof.
+  unfold ch_leb, ch_le. destruct a as [[s1 e1] n1], b as [[s2 e2] n2], c as [[s3 e3] n3].
+  rewrite !orb_true_iff, !andb_true_iff, !N.ltb_lt, !N.eqb_eq, !N.leb_le. lia.
+Qed.
+
+Lemma insert_ch_perm c l : Permutation (c :: l) (insert_ch c l).
+Proof.
+  induction l as [|d r IH]; cbn [insert_ch]; [reflexivity|].
+  destruct (ch_le d c); [|reflexivity].
+  etransitivity; [apply perm_swap|]. apply perm_skip. exact IH.
+Qed.
+
+Lemma insert_ch_sorted c l : StronglySorted ch_leb l -> StronglySorted ch_leb (insert_ch c l).
+Proof.
+  induction 1 as [|d r Hs IH Hf]; cbn [insert_ch]; [repeat constructor|].
+  destruct (ch_le d c) eqn:E.
+  - constructor; [exact IH|].
+    eapply Permutation_Forall; [apply insert_ch_perm|]. constructor; [exact E|exact Hf].
+  - apply ch_le_total in E. constructor; [constructor; assumption|].
+    constructor; [exact E|]. eapply Forall_impl; [|exact Hf]. intros a Ha. eapply ch_le_trans; eauto.
+Qed.
+
+Lemma sort_ch_spec l : StronglySorted ch_leb (sort_ch l) /\ Permutation l (sort_ch l).
+Proof.
+  unfold sort_ch.
+  assert (G : forall l acc, StronglySorted ch_leb acc ->
+             StronglySorted ch_leb (fold_left (fun acc c => insert_ch c acc) l acc) /\
+             Permutation (acc ++ l) (fold_left (fun acc c => insert_ch c acc) l acc)).
+  { clear l. induction l as [|x r IH]; intros acc Hs; cbn [fold_left].
+    - split; [exact Hs|]. rewrite app_nil_r. reflexivity.
+    - destruct (IH (insert_ch x acc) (insert_ch_sorted x acc Hs)) as [H1 H2]. split; [exact H1|].
+      etransitivity; [|exact H2]. etransitivity; [symmetry; apply Permutation_middle|].
+      apply (Permutation_app_tail r (insert_ch_perm x acc)). }
+  destruct (G l [] (SSorted_nil _)) as [H1 H2]. split; [exact H1|exact H2].
+Qed.
+
+Lemma FOP_perm (R : change -> change -> Prop) :
+  (forall a b, R a b -> R b a) ->
+  forall l l', Permutation l l' -> ForallOrdPairs R l -> ForallOrdPairs R l'.
+Proof.
+  intros Hsym l l' HP. induction HP as [|x l l' HP IH|x y l|l l' l'' H1 IH1 H2 IH2]; intro H.
+  - exact H.
+  - inversion H as [|? ? Hx Hl]; subst. constructor; [eapply Permutation_Forall; eauto|auto].
+  - inversion H as [|? ? Hy Hl]; subst. inversion Hl as [|? ? Hx Hl']; subst.
+    inversion Hy as [|? ? Hyx Hyl]; subst.
+    constructor; [constructor; [apply Hsym; exact Hyx|exact Hx]|]. constructor; assumption.
+  - auto.
+Qed.
+
+Lemma sorted_disjoint_wf len : forall cs last,
+  StronglySorted ch_leb cs -> ForallOrdPairs ch_disj cs -> Forall (ch_ok len) cs ->
+  Forall (fun c => last <= ch_start c)%N cs -> (last <= len)%N -> wf_changes last cs len.
+Proof.
+  induction cs as [|[[s e] n] r IH]; intros last Hs Hd Hok Hl Hlen; [exact Hlen|].
+  inversion Hs as [|? ? Hs' Hle]; subst. inversion Hd as [|? ? Hdx Hd']; subst.
+  inversion Hok as [|? ? Hokx Hok']; subst. inversion Hl as [|? ? Hlx Hl']; subst.
+  unfold ch_ok, ch_start, ch_end in Hokx, Hlx. cbn in Hokx, Hlx. cbn [wf_changes].
+  split; [lia|]. apply IH; auto; [|lia].
+  rewrite Forall_forall in *. intros [[s' e'] n'] Hin.
+  specialize (Hle _ Hin). specialize (Hdx _ Hin). specialize (Hok' _ Hin).
+  unfold ch_leb, ch_le in Hle. unfold ch_disj, ch_ok, ch_start, ch_end in *. cbn in *.
+  apply orb_true_iff in Hle. rewrite andb_true_iff, N.ltb_lt, N.eqb_eq, N.leb_le in Hle. lia.
+Qed.
+
+Lemma slice_full t : slice t 0 (tlen t) = t.
+Proof. unfold slice, tlen. rewrite N.sub_0_r, Nat2N.id. cbn. apply firstn_all. Qed.
+
+Lemma map_tres_length {A} (f : A -> tres) l ts : map_tres f l = LOk ts -> length ts = length l.
+Proof.
+  revert ts. induction l as [|x r IH]; intros ts H; cbn in H.
+  - injection H as <-. reflexivity.
+  - destruct (f x); try discriminate. destruct (map_tres f r) as [ts'| |]; try discriminate.
+    injection H as <-. cbn. f_equal. apply IH. reflexivity.
+Qed.
+
+Definition node_disj (a b : tree) : Prop := (node_end a <= node_start b \/ node_end b <= node_start a)%N.
+
+(* Expression patterns (Restructure and replace): the module text is rebuilt from the texts of the
+   outermost matched nodes [nearest matched body]; every character outside their regions is kept and
+   kept characters keep their order ([newpos] with wf_changes, see newpos_mono). *)
+Theorem expr_untouched_outside src goal matched f body r :
+  find_matched matched body = None ->
+  node_start body = 0%N -> node_end body = tlen src ->
+  ForallOrdPairs node_disj (nearest matched body) ->
+  Forall (fun n => (node_start n <= node_end n /\ node_end n <= tlen src)%N) (nearest matched body) ->
+  node_text src goal true matched (Datatypes.S f) body false = TOk r ->
+  exists cs,
+    map (fun c => (ch_start c, ch_end c)) cs
+    = map (fun n => (node_start n, node_end n)) (nearest matched body) /\
+    wf_changes 0 (sort_ch cs) (tlen src) /\
+    forall i, (i < tlen src)%N ->
+      (forall n, In n (nearest matched body) -> ~ (node_start n <= i /\ i < node_end n)%N) ->
+      nth_error r (newpos 0 (sort_ch cs) i) = nth_error src (N.to_nat i).
+Proof.
+  intros Hnm Hs He Hd Hok H. cbn [node_text] in H. rewrite Hnm in H.
+  destruct (map_tres _ (nearest matched body)) as [ts| |] eqn:E; try discriminate.
+  injection H as <-. pose proof (map_tres_length _ _ _ E) as Hlen.
+  rewrite Hs, He, slice_full.
+  set (roots := nearest matched body) in *.
+  set (cs := map (fun rt : tree * text => ((node_start (fst rt) - 0)%N, (node_end (fst rt) - 0)%N, snd rt))
+                 (combine roots ts)).
+  assert (Hreg : map (fun c => (ch_start c, ch_end c)) cs = map (fun n => (node_start n, node_end n)) roots).
+  { unfold cs. clear -Hlen. revert ts Hlen. induction roots as [|n r IH]; intros [|t ts] Hlen; try discriminate;
+      [reflexivity|]. cbn. unfold ch_start, ch_end. cbn. rewrite !N.sub_0_r. f_equal. apply IH. cbn in Hlen. lia. }
+  assert (Hcd : ForallOrdPairs ch_disj cs /\ Forall (ch_ok (tlen src)) cs).
+  { unfold cs. clear -Hlen Hd Hok. revert ts Hlen. induction roots as [|n r IH]; intros [|t ts] Hlen; try discriminate.
+    - split; constructor.
+    - inversion Hd as [|? ? Hdn Hd']; subst. inversion Hok as [|? ? Hokn Hok']; subst.
+      cbn in Hlen. destruct (IH Hd' Hok' ts ltac:(lia)) as [I1 I2]. cbn [combine map]. split.
+      + constructor; [|exact I1]. clear -Hdn. revert ts. induction r as [|m r IHr]; intros [|t' ts]; try constructor.
+        * inversion Hdn; subst. unfold ch_disj, ch_start, ch_end, node_disj in *. cbn. rewrite !N.sub_0_r. assumption.
+        * inversion Hdn; subst. apply IHr. assumption.
+      + constructor; [|exact I2]. unfold ch_ok, ch_start, ch_end. cbn. rewrite !N.sub_0_r. exact Hokn. }
+  destruct Hcd as [Hcd Hcok]. destruct (sort_ch_spec cs) as [Hss Hperm].
+  assert (Hwf : wf_changes 0 (sort_ch cs) (tlen src)).
+  { apply sorted_disjoint_wf; auto.
+    - eapply FOP_perm; eauto. intros a b [H1|H1]; [right|left]; exact H1.
+    - eapply Permutation_Forall; eauto.
+    - apply Forall_forall. intros; apply N.le_0_l.
+    - apply N.le_0_l. }
+  exists cs. split; [exact Hreg|]. split; [exact Hwf|]. intros i Hi Hout.
+  assert (Ho : outside (sort_ch cs) i).
+  { eapply Permutation_Forall; [exact Hperm|]. apply Forall_forall. intros [[s e] n] Hin.
+    assert (Hin' : In (s, e) (map (fun c => (ch_start c, ch_end c)) cs)).
+    { apply in_map_iff. exists (s, e, n). auto. }
+    rewrite Hreg in Hin'. apply in_map_iff in Hin' as (nd & Hnd & Hnin). injection Hnd as <- <-.
+    apply Hout. exact Hnin. }
+  unfold apply_changes. destruct cs as [|c0 cs'] eqn:Ecs.
+  - cbn [sort_ch fold_left newpos]. f_equal. lia.
+  - rewrite <- Ecs in *. apply build_outside; [exact Hwf|lia|exact Ho].
+Qed.
